@@ -36,6 +36,7 @@ def report : List (String × String × List String × List String) :=
       pr (c14_holdExtraction.filter fun x => !recordedHoldExtraction.contains x),
       pr (c14_holdExtraction.filter fun x => recordedHoldExtraction.contains x)),
     ("C15", "manual Send/Sync impl weaker than the reference / unexpected", pr c15_sendSync, []),
+    ("C15,C14", "key-less hold token without the PhantomData<R::GuardMarker> field (its auto traits no longer follow the raw lock's guard marker)", c15_holdTokenMarkers.map nm, []),
     ("C15", "scoped closure argument not higher-ranked (D8)",
       pr (c15_closureLifetimes.filter fun x => !recordedClosures.contains x),
       pr (c15_closureLifetimes.filter fun x => recordedClosures.contains x)),
